@@ -195,10 +195,14 @@ func (s *BaseState) DecodeJSON(b []byte, enc encoder.Encoder) error {
 	s.height = u.Height.Height()
 	s.k = u.Key
 
-	s.ops = make([]util.Hash, len(u.Operations))
+	s.ops = nil
 
-	for i := range u.Operations {
-		s.ops[i] = u.Operations[i].Hash()
+	if len(u.Operations) > 0 {
+		s.ops = make([]util.Hash, len(u.Operations))
+
+		for i := range u.Operations {
+			s.ops[i] = u.Operations[i].Hash()
+		}
 	}
 
 	switch i, err := DecodeStateValue(u.Value, enc); {
